@@ -70,8 +70,32 @@ class Tr:
             if isinstance(n, ast.Import):
                 for a in n.names:
                     self.mod_imports[a.asname or a.name] = a.name
+        self.unwrap_save_lock()
         self.check_init()
         self.check_dispatch()
+
+    def unwrap_save_lock(self):
+        """`save_sensors` may be exactly `with self.<lock>: self._save_sensors()` where <lock> is a threading.Lock /
+        RLock created in __init__ (mutual exclusion of saves: no effect on the sequence of file operations of ONE
+        save, which is what is translated).  The translated function is then `_save_sensors`."""
+        f = self.funcs["save_sensors"]
+        body = strip_doc(f.body)
+        if not (len(body) == 1 and isinstance(body[0], ast.With)):
+            return
+        w = body[0]
+        if len(w.items) != 1 or w.items[0].optional_vars is not None:
+            U(w, "with statement of save_sensors")
+        lock = src(w.items[0].context_expr)
+        init = [src(x) for x in strip_doc(self.funcs["__init__"].body)]
+        if not any(x in (f"{lock} = threading.Lock()", f"{lock} = threading.RLock()") for x in init) or not lock.startswith("self."):
+            U(w, "save_sensors holds something that is not a lock created in __init__")
+        if len(w.body) != 1 or src(w.body[0]) != "self._save_sensors()" or "_save_sensors" not in self.funcs:
+            U(w, "body of the locked save_sensors")
+        for name, fn in self.funcs.items():
+            if name != "save_sensors" and lock in src(fn) and name != "__init__":
+                U(fn, "the save lock is used outside save_sensors")
+        self.funcs["save_sensors"] = self.funcs["_save_sensors"]
+        self.save_lock = lock
 
     # ---- fixed helpers that must keep their meaning
     def check_init(self):
